@@ -48,7 +48,7 @@ func c38(c *Ctx) {
 		okStrict := false
 		for _, a := range nx.AnonFuncs {
 			for _, r := range returnsOf(a) {
-				if b, ok := r.Results[0].(*ssa.BinOp); ok && b.Op == token.GTR && FieldLoad(fAcc)(b.X) {
+				if op, _, _, ok := cmpOriented(r.Results[0], FieldLoad(fAcc)); ok && op == token.GTR {
 					okStrict = true
 				}
 			}
